@@ -57,7 +57,10 @@ func (s *Service) enter(node, op string) (uint64, error) {
 	if p := s.Probe; p != nil {
 		p(seq, node, op)
 	}
-	if f := s.Inject; f != nil {
+	s.mu.Lock()
+	f := s.Inject
+	s.mu.Unlock()
+	if f != nil {
 		if err := f(node, op); err != nil {
 			s.record(seq, node, op, "", "injected:"+err.Error())
 			return seq, err
@@ -301,4 +304,11 @@ func (l *Lease) Close() error {
 	s.mu.Unlock()
 	s.record(seq, l.node, "lease-close", l.rec.id, res)
 	return nil
+}
+
+// SetInject installs the injection callback while nodes may already be calling in.
+func (s *Service) SetInject(f func(node, op string) error) {
+	s.mu.Lock()
+	s.Inject = f
+	s.mu.Unlock()
 }
